@@ -106,6 +106,7 @@ Build(k, g) ==
     [] g[1] \in {"probe"} -> <<"atom", <<"succeed">> >>
     [] g[1] = "conj" -> FromArray(k, BuildAll(k, g[2]))
     [] g[1] = "rawconj" -> ConjNew(k, Build(k, g[2]), Build(k, g[3]))
+    [] g[1] = "twice" -> FromArray(k, <<Build(k, g[2]), Build(k, g[3])>>)
     [] g[1] = "rawdisj" -> <<IF k = "d" THEN "ddisj" ELSE "disj", Build(k, g[2]), Build(k, g[3])>>
     [] g[1] = "disj" -> DisjFromArray(k, BuildAll(k, g[2]))
     [] g[1] \in {"conde", "cond"} ->
